@@ -157,7 +157,10 @@ def name_maps(ctx):
             res.finding('R-TAB.shortcut-names', f"xml_{k}", "one element per shortcut name", str(v), key=f"R-TAB.shortcut-names|collision|{k}")
     # possible_children_names: the names of the container's leaves
     p = sm.func('XMLElement', 'possible_children_names', T.M_XMLELEMENT)
-    res.check('{leaf.content.name for leaf in self.child_container_tree.iterate_leaves()}' in unparse(p.node), 'R-TAB.shortcut-names', p.fq,
+    comps = [n for n in ast.walk(p.node) if isinstance(n, ast.SetComp) and len(n.generators) == 1 and
+             unparse(n.generators[0].iter) in ('self.child_container_tree.iterate_leaves()', 'self._child_container_tree.iterate_leaves()') and
+             unparse(n.elt) == f"{unparse(n.generators[0].target)}.content.name" and not n.generators[0].ifs]
+    res.check(len(comps) == 1, 'R-TAB.shortcut-names', p.fq,
               "possible children = names of all leaves of the element's own container", key='R-TAB.shortcut-names|possible')
 
 
